@@ -5,9 +5,9 @@ Require Import Zrs.lib.RsPrelude Zrs.gen.Generated Zrs.model.Headers Zrs.model.B
 Require Import Zrs.proofs.C13_Canonical Zrs.proofs.C13_CanonCode Zrs.proofs.C13_Agree Zrs.proofs.C02_Concrete Zrs.proofs.C02_O2Table Zrs.proofs.C02_O2Huffman.
 Open Scope Z_scope.
 
-Theorem treeless_section_meets_O2 ht0 src t used :
+Theorem treeless_section_meets_O2_strong ht0 src t used :
   huf_build_decoder ht0 src = ROk (t, used) -> Forall (fun w => 0 <= w) (ht_weights t) -> (length (ht_weights t) <= 255)%nat ->
-  exists lw codes, enc_build_from_weights (ht_weights t ++ [lw]) = ROk codes /\
+  exists lw codes, 1 <= lw /\ enc_build_from_weights (ht_weights t ++ [lw]) = ROk codes /\
     forall lits,
       Forall (fun s => 0 <= s <= Z.of_nat (length (ht_weights t)) /\ 0 < nth (Z.to_nat s) (ht_weights t ++ [lw]) 0) lits ->
       16 <= Z.of_nat (length lits) <= 131072 ->
@@ -21,7 +21,7 @@ Proof.
   injection Hb as Et _. rewrite <- Et in *. cbn [ht_weights] in *.
   set (t' := {| ht_decode := dec; ht_len := 2 ^ M; ht_weights := ws; ht_max_bits := M; ht_bits := bits; ht_bit_ranks := ranks; ht_rank_indexes := idxs; ht_fse := ft |}) in *.
   pose proof (encoder_and_decoder_agree ws dec M bits ranks idxs t' Hw Hl Eb eq_refl eq_refl) as X. destruct X as (lw & codes & Hlw & Henc & Hag & Ebits).
-  exists lw, codes. split; [exact Henc|]. intros lits Hlits Hn Hpl. set (payload := huf4_bytes (code_fn codes) lits) in *.
+  exists lw, codes. split; [lia|]. split; [exact Henc|]. intros lits Hlits Hn Hpl. set (payload := huf4_bytes (code_fn codes) lits) in *.
   assert (Ecodes : forall s, In s lits -> code_fn codes s = code_of_dec t' s).
   { intros s Hs. rewrite Forall_forall in Hlits. destruct (Hlits s Hs) as (A & B). symmetry. apply (Hag s A B). }
   assert (Epay : payload = [] ++ huf4_bytes (code_of_dec t') lits) by (unfold payload; rewrite (huf4_ext _ _ lits Ecodes); reflexivity).
@@ -40,4 +40,18 @@ Proof.
   pose proof (model_section_meets_O2 t' t' 3 [] lits) as MS. cbv zeta in MS.
   rewrite Epay in *. apply MS; [|exact Hdel|exact Hn|right; repeat split; reflexivity|exact Hpl].
   split; [exists ht0, src, used; exact Hb0|]. cbn [ht_weights t']. split; [exact Hw|exact Hl].
+Qed.
+
+Theorem treeless_section_meets_O2 ht0 src t used :
+  huf_build_decoder ht0 src = ROk (t, used) -> Forall (fun w => 0 <= w) (ht_weights t) -> (length (ht_weights t) <= 255)%nat ->
+  exists lw codes, enc_build_from_weights (ht_weights t ++ [lw]) = ROk codes /\
+    forall lits,
+      Forall (fun s => 0 <= s <= Z.of_nat (length (ht_weights t)) /\ 0 < nth (Z.to_nat s) (ht_weights t ++ [lw]) 0) lits ->
+      16 <= Z.of_nat (length lits) <= 131072 ->
+      let payload := huf4_bytes (code_fn codes) lits in
+      zlen payload < zlen lits ->
+      lit_ok t lits (huf_lit_header 3 (zlen lits) (zlen payload)) payload t.
+Proof.
+  intros Hb Hw Hl. destruct (treeless_section_meets_O2_strong ht0 src t used Hb Hw Hl) as (lw & codes & _ & Henc & Hall).
+  exists lw, codes. split; [exact Henc|exact Hall].
 Qed.
